@@ -1,7 +1,7 @@
 SPECIFICATION Spec
 CONSTANTS
   Chars = {97, 32, 9, 34}
-  MaxLen = 7
+  MaxLen = 6
 INVARIANTS Inside Clean OnlyLastTouches Bounded
 CONSTRAINT Emit
 CHECK_DEADLOCK FALSE
